@@ -45,6 +45,10 @@ def case_partition(case):
         out["sub_symbols"] = [s["symbols"] for s in subs]
     out["error"] = tr.get("error")
     out["stopped"] = bool(tr.get("stopped"))
+    try:
+        out["glue"] = glue_case(indict, marker, tr, case.get("flags", {}))
+    except Exception as e:
+        out["glue_error"] = type(e).__name__ + ": " + str(e)[:160]
     if "result" in tr:
         res = tr["result"]
         out["solvers"] = [{"solver": s["solver"], "state_variables": list(s["state_variables"]),
@@ -262,6 +266,10 @@ def case_full(case):
                            "update_expressions": {k: str(v) for k, v in s.get("update_expressions", {}).items()},
                            "propagators": {k: str(v) for k, v in s.get("propagators", {}).items()},
                            "initial_values": dict(s.get("initial_values", {})), "parameters": s.get("parameters")} for s in res]
+    try:
+        out["glue"] = glue_case(indict, marker, tr, flags)
+    except Exception as e:
+        out["glue_error"] = type(e).__name__ + ": " + str(e)[:160]
     pt_ = out.pop("_pt", None)
     if "solvers" in out and pt_ is not None and not flags.get("preserve_expressions"):
         # value of every numeric update expression at the same point as A, b, c (for the model's numericRhs)
@@ -764,7 +772,15 @@ def case_dict(case):
                                 problems.append({"what": "listed parameter value differs", "parameter": p, "listed": listed[p], "supplied": indict["parameters"][p]})
                         except Exception:
                             pass
-    return {"problems": problems, "n_solvers": len(res), "kinds": [s.get("solver") for s in res], "nvars": len(allvars)}
+    ret = {"problems": problems, "n_solvers": len(res), "kinds": [s.get("solver") for s in res], "nvars": len(allvars)}
+    try:        # second, traced run: payloads for the glue models (initial-value copy, get_initial_value, linearity flags)
+        from harness.core import trace
+        fl = dict(case.get("flags", {"disable_stiffness_check": True}))
+        tr = trace.traced_analysis(indict, **fl)
+        ret["glue"] = glue_case(indict, marker, tr, fl)
+    except Exception as e:
+        ret["glue_error"] = type(e).__name__ + ": " + str(e)[:160]
+    return ret
 
 
 class _NotPoly(Exception):
@@ -900,3 +916,78 @@ def pipeline_case(indict, marker, x):
     except _NotPoly:
         return None
     return {"n": len(syms), "time": pos[tname], "entries": entries, "symbols": syms}
+
+
+def glue_case(indict, marker, tr, flags):
+    """payloads + implementation answers for the glue models (Model/Glue.lean): initial-value copy, SystemOfShapes.get_initial_value,
+    the preserve_expressions block, get_lin_cc_symbols.  State variables travel as (shape symbol, order) pairs; the spelling
+    <-> pair table is built here from the Shape objects (an unknown spelling becomes (spelling, 0))."""
+    from odetoolbox.shapes import Shape
+    g = {}
+    shapes = tr.get("shapes")
+    res = tr.get("result")
+    if shapes is not None:
+        pair = {}
+        for sh in shapes:
+            for k in range(sh.order):
+                pair.setdefault(str(sh.symbol) + marker * k, [str(sh.symbol), k])
+
+        def to_pair(sp):
+            return pair.get(sp, [sp, 0])
+
+        def key_pair(key):      # keys of Shape.initial_values are primed spellings
+            n = len(key) - len(key.rstrip("'"))
+            return [key.rstrip("'"), n]
+        pshapes = [{"symbol": str(sh.symbol), "order": int(sh.order),
+                    "iv": [key_pair(str(k_)) + [str(v_)] for k_, v_ in sh.initial_values.items()]} for sh in shapes]
+        if res is not None:
+            solvers = [[to_pair(v) for v in s_["state_variables"]] for s_ in res]
+            queries, sys_real = [], []
+            ss = tr.get("shape_sys")
+            for s_ in res:
+                for v in s_["state_variables"]:
+                    queries.append(to_pair(v))
+                    try:
+                        r_ = ss.get_initial_value(v)
+                        sys_real.append(None if r_ is None else [str(r_)])
+                    except AssertionError:
+                        sys_real.append("unknown")
+            g["iv"] = {"payload": {"shapes": pshapes, "solvers": solvers, "queries": queries},
+                       "real": [[[to_pair(k_), str(v_)] for k_, v_ in s_.get("initial_values", {}).items()] for s_ in res],
+                       "sys_real": sys_real, "spellings": [list(s_["state_variables"]) for s_ in res]}
+    if "shape_lin" in tr and "verdict0" in tr and shapes is not None:
+        xs = tr["system"]["x"]
+        g["lin"] = {"payload": {"shapes": [{"symbol": a, "order": b, "lin": c} for a, b, c in tr["shape_lin"]], "queries": [pair.get(v, [v, 0]) for v in xs]},
+                    "real": [tr["verdict0"].get(v) for v in xs], "x": xs}
+    # ---- preserve_expressions
+    pe = flags.get("preserve_expressions", False)
+    err = tr.get("error")
+    pres_err = None
+    if err and err["type"] == "MalformedInputException":
+        if "Requested to preserve expression of variable" in err["msg"]:
+            pres_err = "notFirstOrder"
+        elif "preserve_expressions`` parameter should be" in err["msg"]:
+            pres_err = "badArgument"
+    if res is not None or pres_err is not None:
+        dyn, table, ok = [], [], True
+        for d in indict["dynamics"]:
+            e = {}
+            if "expression" in d:
+                e["expression"] = d["expression"]
+            if "expressions" in d:
+                e["expressions"] = list(d["expressions"])
+            dyn.append(e)
+            for ex in ([d["expression"]] if "expression" in d else list(d.get("expressions", []))):
+                try:
+                    n_, o_, rhs_ = Shape._parse_defining_expression(ex)
+                    table.append([ex, str(n_), int(o_), str(rhs_)])
+                except Exception:
+                    ok = False
+        if ok:
+            arg = pe if isinstance(pe, bool) else ([str(v) for v in pe] if isinstance(pe, (list, tuple)) else "other")
+            solvers = [] if res is None else [{"id": i, "hasUpdate": "update_expressions" in s_, "analytic": "analytic" in s_["solver"],
+                                               "update": list(s_.get("update_expressions", {}).keys())} for i, s_ in enumerate(res)]
+            g["preserve"] = {"payload": {"dyn": dyn, "parse": table, "arg": arg, "marker": marker, "solvers": solvers},
+                             "real_error": pres_err,
+                             "real": None if res is None else [{k_: str(v_) for k_, v_ in s_.get("update_expressions", {}).items()} for s_ in res]}
+    return g
